@@ -1285,7 +1285,12 @@ def run(ctx):
     by_part = {}
     for s in samples:
         by_part.setdefault(s["part"], []).append(s)
-    picked = [x for p in ("hist", "matrix", "update", "env") for x in by_part.get(p, [])[:2]]
+    n_none, v_none, s_none = none_part()
+    viols += [Violation(**v) for v in v_none]
+    stats["evaluations"] += n_none
+    stats["nontrivial"] += n_none
+    per_part["none"] = dict(evaluations=n_none, nontrivial=n_none, jobs=1)
+    picked = [x for p in ("hist", "matrix", "update", "env") for x in by_part.get(p, [])[:2]] + s_none
     if stats.get("stack_cause_inconsistent"):
         notes = [f"remove_typechecker_stack: {stats['stack_cause_inconsistent']} TypeCheckErrors whose __cause__ did not follow the switch (not part of the statement; not judged)"]
     else:
@@ -1338,15 +1343,114 @@ def run(ctx):
         + [
             "don't-care: non-bool 0/1/1.0/0.0 as switch value (accepted-as-bool or ValueError both allowed); item names not in lower case may also be rejected with ValueError; "
             "non-binding calls while checking is ON; no_type_check applied to a classmethod/staticmethod/property OBJECT or to a dataclass (Python marks no function there); "
-            "old-style '@jaxtyped @typechecker' and typechecker=None are outside the alphabet",
+            "old-style '@jaxtyped @typechecker' (the typechecker keeps checking by itself) is outside the alphabet; typechecker=None is covered by the small 'none' part",
         ],
     )
+
+
+
+# --------------------------------------------------------------------------- typechecker=None
+
+
+def none_part():
+    """`jaxtyped(typechecker=None)` (only manual isinstance checks in the body) while checking
+    is switched off must behave like the plain function too: in particular it must not open a
+    binding context of its own.  Small complete product: switch mechanism x callable kind x
+    call situation, differential against the undecorated function."""
+    common.bind_repo()
+    import typing
+    import jaxtyping
+    from jaxtyping import Float, config, jaxtyped
+    from ..adapter import Duck, bindings_text
+
+    Fn = Float[Duck, "n"]
+    D3, D4 = Duck((3,)), Duck((4,))
+    boom = ValueError("from the body")
+
+    def make(kind, mech):
+        def body(x=None, raise_=False):
+            if raise_:
+                raise boom
+            return (isinstance(D3, Fn), isinstance(D4, Fn), bindings_text(), x)
+
+        def f(x=None, raise_=False):
+            return body(x, raise_)
+
+        class K:
+            def m(self, x=None, raise_=False):
+                return body(x, raise_)
+
+        plain = f if kind == "def" else K().m
+        target = f if kind == "def" else K.m
+        if mech == "ntc_below":
+            target = typing.no_type_check(target)
+        dec = jaxtyped(typechecker=None)(target)
+        if mech == "ntc_above":
+            dec = typing.no_type_check(dec)
+        if kind == "method":
+            class K2:
+                pass
+
+            K2.m = dec
+            dec = K2().m
+        return plain, dec
+
+    def observe(fn, situation):
+        def call():
+            if situation == "nonbinding":
+                return fn(1, 2, 3, 4)
+            if situation == "raises":
+                return fn(raise_=True)
+            return fn(D3)
+
+        try:
+            if situation == "in_context":
+                with jaxtyped("context"):
+                    isinstance(D3, Fn)
+                    r = call()
+                    after = (isinstance(D4, Fn), bindings_text())
+                return ("ok", r[:3], r[3] is D3, after)
+            r = call()
+            return ("ok", r[:3], r[3] is D3)
+        except Exception as e:  # noqa: BLE001
+            return ("raised", type(e).__name__, e is boom, None if e is boom else str(e).replace("K2.", "K.").replace("make.<locals>.", ""))
+
+    viols, n = [], 0
+    samples = []
+    for mech in ("update_before_decoration", "update_after_decoration", "ntc_below", "ntc_above"):
+        for kind in ("def", "method"):
+            try:
+                if mech == "update_before_decoration":
+                    config.update("jaxtyping_disable", True)
+                plain, dec = make(kind, mech)
+                if mech == "update_after_decoration":
+                    config.update("jaxtyping_disable", "TRUE")
+                for situation in ("top_level", "in_context", "nonbinding", "raises"):
+                    a, b = observe(plain, situation), observe(dec, situation)
+                    n += 1
+                    if a[:3] != b[:3] if a[0] == "raised" and situation == "nonbinding" else a != b:
+                        viols.append(
+                            Violation(
+                                key=f"C19:typechecker-none:{mech}:{situation}",
+                                what=f"jaxtyped(typechecker=None) {kind}, checking off via {mech}, {situation}: decorated {b} != undecorated {a}",
+                                replay=dict(part="none", mech=mech, kind=kind, situation=situation),
+                            ).to_json()
+                        )
+                    elif len(samples) < 1 and situation == "in_context":
+                        samples.append(dict(part="none", mech=mech, kind=kind, situation=situation, observed=repr(b)))
+            finally:
+                config.update("jaxtyping_disable", False)
+    return n, viols, samples
 
 
 # --------------------------------------------------------------------------- replay
 
 
 def replay(rep):
+    if rep.get("part") == "none":
+        n, v, _ = none_part()
+        mine = [x for x in v if x["replay"] == rep]
+        return dict(violations=[x["what"] for x in mine], violates=bool(mine))
     part = rep["part"]
     if part == "env":
         child = run_child(rep["env"])
